@@ -446,6 +446,7 @@ impl InnerLocustDB {
         let span_batching = tracer.start_span("batching");
         let (tx, rx) = mpsc::channel();
         let table_count = tables.len();
+        let batched_tables = tables.clone();
         for table in tables {
             let this = self.clone();
             let tx = tx.clone();
@@ -470,6 +471,10 @@ impl InnerLocustDB {
         // Persist new partitions
         if let Some(storage) = self.storage.as_ref() {
             storage.persist_partitions(new_partitions, &mut tracer);
+        }
+        // New partitions can be loaded back from disk now, so their columns may be evicted.
+        for table in &batched_tables {
+            table.register_pending_lru();
         }
         #[cfg(locustdb_verif)]
         crate::verif::sync("flush:parts-persisted");
@@ -787,6 +792,7 @@ impl InnerLocustDB {
             );
             (table.name().to_string(), to_delete)
         });
+        table.register_pending_lru();
         tracer.end_span(span_prepare_compact);
         #[cfg(locustdb_verif)]
         crate::verif::sync(&format!("flush:compact-ms:{}", table.name()));
